@@ -39,7 +39,7 @@ Definition unpack_root (o : eopts) (root : value) : res (otree + list ereason) :
               match reify_loc o fuel fuel (act_push fresh) {| l_root := root; l_path := nm; l_val := x |} with
               | Ok y => rest <- gd r ;;
                         let '(ds, es, mk) := rest in Ok ((k, to_otree (fst y)) :: ds, es, snd y || mk)
-              | Err e p => rest <- gd r ;; let '(ds, es, mk) := rest in Ok (ds, e :: es, mk)
+              | Err e p => rest <- gd r ;; let '(ds, es, mk) := rest in Ok (ds, e :: es, mk || err_marked p)
               | Panic => Panic
               | OutOfModel => OutOfModel
               end
@@ -53,6 +53,30 @@ Definition unpack_root (o : eopts) (root : value) : res (otree + list ereason) :
          | _ => Ok (inr es)
          end
   | _ => OutOfModel
+  end.
+
+(* an operator that can absorb an error (a default, an alternative, an error message) occurs
+   somewhere in the tree: the value a cyclic evaluation takes can then depend on the per-call
+   cache of evaluated values, which the model does not have *)
+Fixpoint exp_absorbs (e : vexp) : bool :=
+  match e with
+  | EConst _ | ERef _ _ => false
+  | ESplice ps => existsb exp_absorbs ps
+  | ESingle x _ => exp_absorbs x
+  | EDefault _ _ _ | EAlt _ _ _ | EErr _ _ _ => true
+  end.
+Fixpoint has_absorber (v : value) : bool :=
+  match v with
+  | VSplice e => exp_absorbs e
+  | VSub d a =>
+    (fix gd (l : list (string * (string * value))) : bool :=
+       match l with [] => false | (_, (_, x)) :: r => has_absorber x || gd r end) d ||
+    match a with
+    | None => false
+    | Some l => (fix ga (l : list (string * value)) : bool :=
+                   match l with [] => false | (_, x) :: r => has_absorber x || ga r end) l
+    end
+  | _ => false
   end.
 
 Definition xobs_eqb (a b : xobs) : bool :=
@@ -71,6 +95,12 @@ Definition model_agrees (c : case) : bool :=
        evaluated values can show: both must at least be values *)
     || (read_string_marked o (fuel_for o root) root name idx
         && match model_read c, obs with OV _, OV _ => true | _, _ => false end)
+    (* an error raised after a cyclic error was absorbed: with the cache the implementation may
+       have taken another way *)
+    || match model_read c, obs with
+       | OE _ p, (OV _ | OE _ _) => err_marked p
+       | _, _ => false
+       end
   | CUnpackDyn o root obs =>
     match unpack_root o root with
     | Ok (inl t) => xobs_eqb (XV t) obs
@@ -108,7 +138,7 @@ Definition prop_holds (c : case) : bool :=
 Definition signature (c : case) : N := 0%N.
 
 Definition verdict (c : case) : N :=
-  if skipped c then 8%N
+  if skipped c then (if prop_holds c then 8%N else 2%N)     (* outside the model: the property is still evaluated *)
   else ((if model_agrees c then 0 else 1) + (if prop_holds c then 0 else 2))%N.
 
 Fixpoint run_cases (i : N) (cs : list case) : list (N * N * N) :=
